@@ -2,18 +2,20 @@
 """C10 — arithmetic yields the exact IEEE-754 double or an error, never a wrong number.
 
 Necessary structural conditions (the digit-level exactness of the string scanners is not decided):
-  K1  result conversion (the one f64 → JSON-number function): the integer spelling
-      `number as i64` (a saturating cast) is edge-dominated by the exact
-      integrality test fract(number) == 0.0 and by the range guards
-      number >= -2^63 and number < 2^63 (constants read); otherwise
-      Number::from_f64(number) whose None (non-finite) becomes Err; the argument
-      reaches both exits unrounded (no round/trunc/floor/ceil/abs);
+  K1  result conversion (the one f64 → JSON-number function), read as a decision table through the private
+      helpers it calls (rules/x_ipath.py — whichever function holds the guards, however the branches are spelled):
+      the integer spelling Number::from(x as i64) (a saturating cast, of the result itself) is returned only in
+      cases whose tests include the exact integrality test fract(x) == 0.0 and the range guards x >= -2^63 and
+      x < 2^63 (constants read); the float spelling is the payload of Number::from_f64(x) and is returned only where
+      x is not (integral and in range); every case where from_f64(x) is None (non-finite) is Err, and Err is returned
+      only there; no value passes through round/trunc/floor/ceil/abs on its way out;
   K2  every arithmetic table entry (+ - * / % min max) returns only through that
       conversion, and nothing else in their reach builds a JSON number;
   K3  operations: folds run left to right over all operands (no reversing /
       skipping adaptor); + folds float Add from 0.0, * folds float Mul from 1.0,
-      - / % apply float Sub/Div/Rem to (operand 0, operand 1) in that order
-      (one-operand - multiplies by -1 or negates), min/max fold from +inf/-inf
+      - / % apply float Sub/Div/Rem to (conversion of operand 0, conversion of operand 1) in that order — read on
+      the decision cases of the table function through its helpers, operands named by operand descriptors —
+      (one-operand - multiplies the conversion of operand 0 by -1 or negates it), min/max fold from +inf/-inf
       with a strict float comparison; only double arithmetic — no integer
       accessor or integer operation anywhere in the arithmetic reach;
   K4  conversion routing: + and * use the parseFloat-style conversion only,
